@@ -561,11 +561,16 @@ func vfExplorerVerify(v *vaa.VAA, addrs []ethcommon.Address) bool {
 	return vfExplorerPushFn(v, [][]ethcommon.Address{addrs}, 0)
 }
 
+// the name of the all-zero address in abstract address lists: no key has it, no signature recovers to it
+const vfZeroAddr = "ZERO"
+
 func (w *vfSigWorld) addrsOf(names []string) ([]ethcommon.Address, []interface{}) {
 	addrs := make([]ethcommon.Address, len(names))
 	out := make([]interface{}, len(names))
 	for i, n := range names {
-		addrs[i] = w.keys.Addr(n)
+		if n != vfZeroAddr {
+			addrs[i] = w.keys.Addr(n)
+		}
 		out[i] = n
 	}
 	return addrs, out
@@ -1443,6 +1448,48 @@ func TestVerifFmtTrace(t *testing.T) {
 						}
 					}
 					emit("gen-verify-repeats", names, idx)
+				}
+			}
+			// (d) guardian lists that contain the all-zero address (alone, first, middle, last, next to valid members),
+			// with every malformed-signature shape claiming that index and other indices
+			for _, names := range [][]string{{vfZeroAddr}, {vfZeroAddr, "k1"}, {"k1", vfZeroAddr}, {"k1", vfZeroAddr, "k2"}, {"k1", "k2", vfZeroAddr},
+				{vfZeroAddr, "k1", "k2", "k3"}, {"k1", "k2", vfZeroAddr, "k3", "k4"}, {vfZeroAddr, vfZeroAddr}, {"k1", vfZeroAddr, "k2", vfZeroAddr}} {
+				n := len(names)
+				for zi, zn := range names {
+					for shape := 0; shape < 9; shape++ {
+						var bad [65]byte
+						switch shape {
+						case 7:
+							bad = w.concrete("JUNK", 0)
+						case 8:
+							bad = w.concrete("x", 0)
+						default:
+							bad = w.concrete("ERR", shape)
+						}
+						// the malformed signature alone at index zi, and together with valid signatures of the members
+						for _, withMembers := range []bool{false, true} {
+							idx := []int{}
+							sigs := [][65]byte{}
+							for k := 0; k < n; k++ {
+								switch {
+								case k == zi:
+									idx = append(idx, k)
+									sigs = append(sigs, bad)
+								case withMembers && names[k] != vfZeroAddr:
+									idx = append(idx, k)
+									sigs = append(sigs, w.concrete(names[k], 0))
+								}
+							}
+							if !withMembers && zn != vfZeroAddr && shape > 0 && n > 3 {
+								continue
+							}
+							for _, f := range fns {
+								a, s := w.vfEvalVerify(names, idx, sigs, f.fn)
+								a["src"] = "gen-verify-zeroaddr"
+								tr.Emit(2, f.ev, a, s)
+							}
+						}
+					}
 				}
 			}
 			// (c) two-step histories: a list that verifies, then one field of the same VAA value (or of a struct copy) changes
